@@ -211,6 +211,34 @@ def global_table_caches(ctx, modname):
                     if isinstance(x, ast.Name) and isinstance(x.ctx, ast.Load) and x.id in ps and id(x) not in key_nodes:
                         used.add(x.id)
             missing = sorted(used - covered)
+            # the receiver: a method whose cached value is computed from `self` must key the table by the whole receiver.
+            # `self`, `self.sec()`, `id(self)`, or both coordinates identify it; `self.xonly()` / `self.x` alone identify a point
+            # only up to its sign (P and -P share an x), `self.hash160()` etc. are fine (injective encodings of the whole object)
+            all_ps = param_names(fn)
+            if all_ps and all_ps[0] == "self":
+                val_from_self = False
+                if dict_stores:
+                    for n, x in dict_stores:
+                        if "param:self" in origins(fn, n.id, n.ast.value) or any(
+                                isinstance(c, ast.Call) and isinstance(c.func, ast.Name) and c.func.id == "super" for c in ast.walk(n.ast.value)):
+                            val_from_self = True  # `super().m(...)` works on the receiver too
+                else:
+                    val_from_self = any(isinstance(x, ast.Name) and x.id == "self" for x in ast.walk(fn))
+                if val_from_self:
+                    kat = set()
+                    bare_self = False
+                    for n, k in reads + writes:
+                        kk = expand(fn, n.id, k, depth=4)
+                        kat |= origins(fn, n.id, k)
+                        for el in (kk.elts if isinstance(kk, ast.Tuple) else [kk]):
+                            if isinstance(el, ast.Name) and el.id == "self":
+                                bare_self = True
+                    whole = bare_self or "call:sec" in kat or "call:id" in kat or ("attrname:x" in kat and "attrname:y" in kat) or "call:serialize" in kat or "call:raw_serialize" in kat
+                    lossy = ("call:xonly" in kat or "attrname:x" in kat) and not whole
+                    if lossy:
+                        missing = missing + ["self (keyed by its x coordinate only: P and -P share the entry)"]
+                    elif not whole and "param:self" not in kat and "name:self" not in kat:
+                        missing = missing + ["self"]
             if missing:
                 hits.append((mod, fn, tname, missing, writes[0][0]))
     return users, hits
